@@ -16,7 +16,7 @@ func init() {
 	property("C12",
 		"Static conformance of poryswitch selection: (a) every selector returns, for each case map, the entry under the -s value when that key is present and otherwise the entry under '_' (presence decided by the comma-ok bit, not by the value), parallel maps with the same key sequence, and fails under enableEnvironmentErrors when neither exists; (b) the header takes the value from compileSwitches[identifier] and errors for missing switches only under enableEnvironmentErrors; (c) parsing the cases can write only the token window, the scope stacks and the font cache of the Parser — nothing an unselected case produced can reach the program except through the case map; (d) '-s K=V' splits at the first '='.",
 		[]string{"scheme argument of DESIGN §4 C12", "balanced scope stacks (C20.a)"},
-		"C12.a", "C12.b", "C12.c", "C12.d", "C12.e", "C09.d", "C06.c", "C12.f")
+		"C12.a", "C12.b", "C12.c", "C12.d", "C12.e", "C09.d", "C06.c", "C12.f", "C12.g")
 	property("C13",
 		"Static conformance of constant substitution: (a) every token literal that is accumulated into an argument, operand, comparison value, case value, table-entry field, mart item or constant value passes through tryReplaceWithConstant (the only exceptions are literal parentheses); (b) names (identifiers, labels, map script names, movement steps) and text are never passed through it; (c) a constant is stored only after the duplicate check, its value is scanned up to the next top-level keyword; (d) the helper is a pure lookup that returns its argument when the name is not a constant.",
 		[]string{"that textual and token-wise replacement coincide for multi-token values is not decided"},
@@ -24,10 +24,11 @@ func init() {
 	property("C14",
 		"Static conformance of list handling: (a) a movement multiplier is accepted exactly in [1, 9999], must be an INT, and expands to exactly that many copies; (b) the movement emitter writes the terminator exactly once on every path and nothing after it; (c) the mart emitter writes '.align 2' first, stops at the first item equal to ITEM_NONE — tested on the very value it would write — and writes the terminator once, unconditionally, after the loop; items and their tokens are parallel; (d) list parsers append each identifier once and advance on every iteration.",
 		[]string{"go/ssa lowering is faithful to the source"},
-		"C14.a", "C14.b", "C14.c", "C14.d", "C06.b", "C12.f")
+		"C14.a", "C14.b", "C14.c", "C14.d", "C06.b", "C12.f", "C12.g")
 
 	register(&Rule{ID: "C12.f", Doc: "every parsed poryswitch case is recorded under its own name, whatever its content", Floor: 5, Run: c12f})
 	register(&Rule{ID: "C13.e", Doc: "no decision depends on how many tokens a substituted value was written with", Floor: 1, Run: c13e})
+	register(&Rule{ID: "C12.g", Doc: "a list poryswitch case body ends at its own closing brace, whatever closes the enclosing list", Floor: 2, Run: c12g})
 	register(&Rule{ID: "C12.a", Doc: "selection protocol: value key if present else '_', comma-ok presence, error under environment errors", Floor: 8, Run: c12a})
 	register(&Rule{ID: "C12.b", Doc: "poryswitch header: value from compileSwitches[ident]; environment errors only in normal mode", Floor: 3, Run: c12b})
 	register(&Rule{ID: "C12.c", Doc: "case parsing writes only token window, scope stacks, font cache", Floor: 3, Run: c12c})
@@ -1012,4 +1013,91 @@ func c13e(c *Ctx) {
 		})
 	}
 	c.Check(nAcc >= 2, "accumulators", "-", fmt.Sprintf("%d functions accumulate substituted tokens in a list; %d tests on such a list's length", nAcc, nTests), "no token accumulators found")
+}
+
+// c12g: the cases of a poryswitch inside a movement / moves() / mart list are parsed by a
+// value parser handed to parsePoryswitchListStatement. A brace-form case body ends at '}' —
+// never at the token that closes the *enclosing* list (')' for moves()). The parser handed
+// over must therefore scan up to the constant '}': either its own loop tests '}' or every
+// token-type argument it passes on is the constant '}' (not a variable captured from the
+// enclosing list parser).
+func c12g(c *Ctx) {
+	pls := c.Fn("parser.Parser.parsePoryswitchListStatement")
+	if pls == nil {
+		return
+	}
+	tokType := c.W.Named("token", "Type")
+	n := 0
+	for _, fn := range c.W.FuncsOf("parser") {
+		if isTestFunc(c.W, fn) {
+			continue
+		}
+		for _, call := range callsToIn(fn, pls) {
+			n++
+			arg := call.Common().Args[1]
+			var g *ssa.Function
+			switch x := arg.(type) {
+			case *ssa.MakeClosure:
+				g, _ = x.Fn.(*ssa.Function)
+			case *ssa.Function:
+				g = x
+			case *ssa.ChangeType:
+				if f, ok := x.X.(*ssa.Function); ok {
+					g = f
+				}
+				if mc, ok := x.X.(*ssa.MakeClosure); ok {
+					g, _ = mc.Fn.(*ssa.Function)
+				}
+			}
+			key := fmt.Sprintf("%s/case-parser#%d", c.W.FuncKey(fn), n)
+			pos := c.W.Pos(call.Pos())
+			if g == nil {
+				c.Unk(key, pos, "cannot resolve the value parser handed to parsePoryswitchListStatement")
+				continue
+			}
+			ok := true
+			why := ""
+			passes := 0
+			instrs(g, func(in ssa.Instruction) {
+				ci, isCall := in.(ssa.CallInstruction)
+				if !isCall || callee(ci) == nil || !c.W.InRepo(callee(ci)) {
+					return
+				}
+				for _, a := range ci.Common().Args {
+					if tokType == nil || !types.Identical(a.Type(), tokType) {
+						continue
+					}
+					passes++
+					if s, isC := strConst(a); !isC || s != "}" {
+						ok = false
+						why = "the case body parser is given the closing token " + pretty(c.term(g, a)) + " (taken from the enclosing list) instead of '}'"
+					}
+				}
+			})
+			if passes == 0 {
+				// the parser scans itself: its loop must stop at '}'
+				stops := false
+				for _, b := range g.Blocks {
+					if !isLoopHeader(b) {
+						continue
+					}
+					for _, cj := range c.PC(g).At(b).cs {
+						_ = cj
+					}
+					if ifi, isIf := b.Instrs[len(b.Instrs)-1].(*ssa.If); isIf {
+						t := c.term(g, ifi.Cond)
+						if strings.Contains(t, `.Type == "}")`) || strings.Contains(t, `.Type != "}")`) {
+							stops = true
+						}
+					}
+				}
+				if !stops {
+					ok = false
+					why = "the value parser neither scans up to '}' itself nor passes '}' on"
+				}
+			}
+			c.Check(ok, key, pos, "case bodies are parsed up to their own '}'", why+": a brace-form case inside the list would be scanned past its closing brace (or rejected)")
+		}
+	}
+	c.Check(n >= 2, "case-parsers", "-", fmt.Sprintf("%d list poryswitch sites", n), "list poryswitch sites not found")
 }
